@@ -30,13 +30,13 @@ type vfHdrSpec struct {
 }
 
 type vfC07Case struct {
-	Mode      string
-	Flags     []string
-	ReqHdrs   []string
-	RespHdrs  []string
-	Requests  int
-	Spoofed   int
-	Sources   map[string]int
+	Mode     string
+	Flags    []string
+	ReqHdrs  []string
+	RespHdrs []string
+	Requests int
+	Spoofed  int
+	Sources  map[string]int
 }
 
 type vfC07Sess struct {
@@ -252,9 +252,9 @@ func vfC07(w *vfWorld) {
 		name    string
 		loginAt time.Time
 		b       *vfBrowser
-		hdrs [][2]string
-		sess *vfC07Sess
-		path string
+		hdrs    [][2]string
+		sess    *vfC07Sess
+		path    string
 	}
 	var sources []*source
 	for _, user := range []string{"alice", "uni", "bare"} {
